@@ -27,7 +27,9 @@ ASSUMPTIONS = ['RefDiscrete (sim/ref/discrete.py) is the README definition; prev
 REAL = common.REAL_ALL
 STUBS = common.STUBS_ALL
 PROBES = ['integer_samples_above_2^53', 'one_sample_trace', 'window_longer_than_trace', 'result_starts_with_inf', 'same_name_twice', 'negative_literal',
-          'combined_class']
+          'combined_class', 'declared_constant', 'declared_number_with_more_than_6_digits']
+
+PRECISE = [1.2345678, 0.1234567891, 3.14159265, 1234567.25, 0.30000000000000004, 2.0000001]
 
 
 def gen(rng, tier):
@@ -36,8 +38,17 @@ def gen(rng, tier):
     vars_ = common.VARS[:nv]
     cfg = sg.GenCfg(vars=vars_, max_depth=rng.randint(2, 6 if big else 5), max_bound=rng.choice([2, 4, 4, 6] + ([8, 10] if big else [])),
                     p_reuse=rng.choice([0.0, 0.1, 0.3]), p_loose=rng.choice([0.08, 0.08, 0.35]))
+    if rng.random() < 0.15:
+        cfg.lattice = sg.LATTICE + PRECISE       # literals with more significant digits than '%g' keeps
     ast = sg.gen_formula(rng, cfg)
-    text = 'out = ' + sg.to_text(ast, sg.Spelling(rng)) + (';' if rng.random() < 0.8 else '')
+    # some literals become declared constants (declare_const with a number or with its decimal text)
+    consts = []
+    if rng.random() < 0.25:
+        lits = sorted(set(x[1] for x in sg.walk(ast) if x[0] == 'const' and x[1] >= 0))
+        rng.shuffle(lits)
+        for i, v in enumerate(lits[:rng.randint(1, 2)]):
+            consts.append(['k%d' % (i + 1), v, rng.choice(['number', 'text'])])
+    text = 'out = ' + sg.to_text(common.consts_to_refs(ast, consts), sg.Spelling(rng)) + (';' if rng.random() < 0.8 else '')
     n = rng.choice([1, 1, 2, 2, 3, 4, 5, 6, 8, 10, 12] + ([16, 20, 24] if big else []))
     data = world.gen_trace(rng, vars_, n, p_bigint=0.06)
     clocks = [world.perfect_clock(n)]
@@ -48,10 +59,15 @@ def gen(rng, tier):
         for k in f:
             fired[k] = fired.get(k, 0) + f[k]
     cls = 'dt_off' if rng.random() < 0.7 else 'dt'
+    second = None
+    if rng.random() < 0.2:
+        # the same specification object is used for a second, different log (shorter, equal or longer)
+        n2 = rng.choice([1, 2, 3, max(1, n - 1), n, n + 1, n + 3])
+        second = {'n': n2, 'data': world.gen_trace(rng, vars_, n2)}
     order = list(vars_)
     rng.shuffle(order)
     return {'vars': vars_, 'ast': ast, 'text': text, 'n': n, 'data': data, 'clocks': clocks, 'fired': fired,
-            'cls': cls, 'order': order}
+            'cls': cls, 'order': order, 'consts': consts, 'second': second}
 
 
 def run(sc):
@@ -65,8 +81,14 @@ def run(sc):
     r.faults.update(sc.get('fired', {}))
     if any(isinstance(x, int) and abs(x) > 2 ** 53 for v in data for x in data[v]):
         r.probes['integer_samples_above_2^53'] += 1
-    text = common.text_of(sc)
-    desc = {'cls': sc.get('cls', 'dt_off'), 'vars': common.var_decls(sc['vars']), 'spec': text}
+    consts = sc.get('consts') or []
+    text = common.text_of(sc) if sc.get('text') else 'out = ' + sg.to_text(common.consts_to_refs(ast, consts)) + ';'
+    desc = {'cls': sc.get('cls', 'dt_off'), 'vars': common.var_decls(sc['vars']), 'spec': text,
+            'consts': [[k, 'float', (v if how == 'number' else sg.fmt_num(v))] for k, v, how in consts]}
+    if consts:
+        r.probes['declared_constant'] += 1
+        if any(how == 'number' and ('%g' % v) != repr(float(v)) and float('%g' % v) != v for k, v, how in consts):
+            r.probes['declared_number_with_more_than_6_digits'] += 1
     outs = []
     for ci, times in enumerate(sc['clocks']):
         try:
@@ -93,6 +115,24 @@ def run(sc):
         r.evals += 1
         if not M.list_eq(vals, ref):
             r.violate('value-equals-reference', clock=ci, spec=text, data=data, got=vals, want=ref)
+        sec = sc.get('second')
+        if ci == 0 and sec:
+            try:
+                ref2 = eval_discrete(ast, sec['data'], sec['n'])
+            except RefError:
+                continue
+            r.faults['object_reused_for_second_log'] += 1
+            try:
+                out2 = M.dt_evaluate(spec, world.perfect_clock(sec['n']), sec['data'], sc.get('order'))
+            except M.ApiCrash as e:
+                r.crashes[e.exc_type] += 1
+                r.violate('evaluate-raised', second_log=True, first_n=n, **e.describe())
+                continue
+            r.evals += 1
+            r.sim_time += sec['n']
+            r.obs.append(out2)
+            if not (isinstance(out2, list) and len(out2) == sec['n'] and M.list_eq([p[1] for p in out2], ref2)):
+                r.violate('value-equals-reference', second_log=True, spec=text, first=data, data=sec['data'], got=out2, want=ref2)
     r.evals += 1
     for vals in outs[1:]:
         if not M.list_eq(vals, outs[0]):
@@ -126,6 +166,15 @@ def shrinks(sc):
                 c = dict(s)
                 c['clocks'] = [x for j, x in enumerate(s['clocks']) if j != i]
                 yield c
+        if s.get('consts'):
+            c = dict(s)
+            c['consts'] = []
+            c['text'] = None
+            yield c
+        if s.get('second'):
+            c = dict(s)
+            c['second'] = None
+            yield c
         if s.get('cls') != 'dt_off':
             c = dict(s)
             c['cls'] = 'dt_off'
